@@ -8,8 +8,10 @@ package verifrt
 
 import (
 	"fmt"
+	"os"
 	"reflect"
 	"runtime/debug"
+	"strconv"
 	"sync"
 	"time"
 )
@@ -381,7 +383,44 @@ func runHarness(fn func(), r *Replay, out *Outcome) {
 			out.PanicStack = string(debug.Stack())
 		}
 	}()
-	fn()
+	if s != nil {
+		fn()
+		return
+	}
+	// no scheduler installed: real mutexes. A harness that does not return (a lock taken twice by the
+	// same goroutine, a lock leaked on an early return) is reported as a deadlock by a watchdog.
+	type fin struct {
+		p     interface{}
+		stack string
+	}
+	done := make(chan fin, 1)
+	go func() {
+		defer func() {
+			if p := recover(); p != nil {
+				done <- fin{p, string(debug.Stack())}
+				return
+			}
+			done <- fin{}
+		}()
+		fn()
+	}()
+	select {
+	case f := <-done:
+		switch f.p.(type) {
+		case nil, assumeFailed, schedAbort:
+		default:
+			out.Panic, out.PanicStack = fmt.Sprint(f.p), f.stack
+		}
+	case <-time.After(watchdog()):
+		out.Deadlock = true
+	}
+}
+
+func watchdog() time.Duration {
+	if v, err := strconv.Atoi(os.Getenv("VERIF_REPLAY_WATCHDOG_S")); err == nil && v > 0 {
+		return time.Duration(v) * time.Second
+	}
+	return 20 * time.Second
 }
 
 var wg sync.WaitGroup
